@@ -96,6 +96,8 @@ type correctableCallState struct {
 	data            CorrectableCallData
 	replyChan       <-chan response
 	expectedReplies int
+	// streamDone is closed when a server-stream call has completed (nil otherwise)
+	streamDone chan struct{}
 }
 
 // CorrectableCall starts a new correctable quorum call and returns a new Correctable object.
@@ -106,6 +108,10 @@ func (c RawConfiguration) CorrectableCall(ctx context.Context, d CorrectableCall
 	md := &ordering.Metadata{MessageID: c.getMsgID(), Method: d.Method}
 
 	replyChan := make(chan response, expectedReplies)
+	var streamDone chan struct{}
+	if d.ServerStream {
+		streamDone = make(chan struct{})
+	}
 	for _, n := range c {
 		msg := d.Message
 		if d.PerNodeArgFn != nil {
@@ -115,7 +121,7 @@ func (c RawConfiguration) CorrectableCall(ctx context.Context, d CorrectableCall
 				continue // don't send if no msg
 			}
 		}
-		n.channel.enqueue(request{ctx: ctx, msg: &Message{Metadata: md, Message: msg}}, replyChan, d.ServerStream)
+		n.channel.enqueue(request{ctx: ctx, msg: &Message{Metadata: md, Message: msg}, streamDone: streamDone}, replyChan, d.ServerStream)
 	}
 
 	corr := &Correctable{level: LevelNotSet, donech: make(chan struct{}, 1)}
@@ -125,6 +131,7 @@ func (c RawConfiguration) CorrectableCall(ctx context.Context, d CorrectableCall
 		data:            d,
 		replyChan:       replyChan,
 		expectedReplies: expectedReplies,
+		streamDone:      streamDone,
 	})
 
 	return corr
@@ -144,6 +151,9 @@ func (c RawConfiguration) handleCorrectableCall(ctx context.Context, corr *Corre
 		for _, n := range c {
 			defer n.channel.deleteRouter(state.md.MessageID)
 		}
+		// Runs before the deleteRouter calls above: a receiver that is blocked handing
+		// this call a response gives up and releases the lock deleteRouter needs.
+		defer close(state.streamDone)
 	}
 
 	for {
